@@ -137,6 +137,11 @@ pub fn input_cfg(prop: &str, max_len: usize) -> InputCfg {
     InputCfg { max_len, ws: if prop == "C08" { WsMode::Heavy } else { WsMode::Light }, max_depth: 7 }
 }
 
+pub fn input_cfg_for(prop: &str, max_len: usize, g: &GCtx) -> InputCfg {
+    let heavy = prop == "C08" || g.spec.profile == "memows";
+    InputCfg { max_len, ws: if heavy { WsMode::Heavy } else { WsMode::Light }, max_depth: 7 }
+}
+
 pub struct CaseRunner<'a> {
     pub prop: &'a str,
     pub seed: u64,
@@ -183,7 +188,7 @@ pub fn run_loop(
     to_violation: &mut dyn FnMut(&str, &Failure) -> serde_json::Value,
 ) {
     let prop = cr.prop;
-    let cfg = input_cfg(prop, cr.max_len);
+    let cfg = input_cfg_for(prop, cr.max_len, g);
     let seed = seed_bytes(cr.seed, g.ghash, fnv64(rule.as_bytes()) ^ fnv64(prop.as_bytes()));
     let mut runner = TestRunner::new_with_rng(
         Config { cases, failure_persistence: None, max_shrink_iters: 4000, max_global_rejects: 10, ..Config::default() },
@@ -256,7 +261,11 @@ fn record(
         *s.2.entry(c.to_string()).or_insert(0) += 1;
     }
     if let Some(k) = out.skipped {
-        *s.3.entry(k.to_string()).or_insert(0) += 1;
+        let n = s.3.entry(k.to_string()).or_insert(0);
+        *n += 1;
+        if *n == 1 && k == "oracle_diverged" {
+            s.5.push(json!({"skipped": k, "grammar": g.text, "rule": rule, "input": input}));
+        }
     }
     if out.nontrivial {
         let key = hash_parts(&[&g.ghash.to_le_bytes(), rule.as_bytes(), input.as_bytes()]);
